@@ -336,6 +336,65 @@ def numinv_block(name):
         else:
             eng.prove(f"{base}/numinv.raises_on_failure/{which}", out == 'CalculationError', extra={'replay': replay, 'observed': out})
     obs += collect(eng, run, base, 'numinv')
+
+    # the inverse has no memory: a second evaluation on the same model object hands the solver the same kind of start point
+    # as a first evaluation on a fresh object, and the model object is not modified by an evaluation
+    eng2 = sx.Engine(div0='assume' if name in ('FHVST', 'WVST') else 'nan', max_paths=64)
+
+    def run2():
+        opt = stubs.OptimizeStub(outcomes=('ok',))
+        mod.optimize = opt
+        m = MC.sx_model(eng2, name)
+        before = dict(vars(m))
+        t1, t2 = eng2.real('target1', positive=True), eng2.real('target2', positive=True)
+        try:
+            getattr(m, which)(t1)
+            getattr(m, which)(t2)
+            fresh = MC.sx_model(eng2, name)
+            getattr(fresh, which)(t2)
+        except E.CalculationError:
+            return
+        x_ = {'replay': dict(replay, kind='c10.numinv_history')}
+        after = dict(vars(m))
+        same = set(before) == set(after) and all(after[k] is before[k] or (not isinstance(after[k], (sx.SymReal, sx.SymBool)) and not isinstance(before[k], (sx.SymReal, sx.SymBool)) and _plain_eq(after[k], before[k])) for k in before)
+        eng2.prove(f"{base}/numinv.model_object_unchanged_by_evaluation/{which}", same,
+                   extra=dict(x_, observed=str(sorted(set(after) ^ set(before)) or [k for k in before if after.get(k) is not before[k]])[:200]))
+        if len(opt.calls) == 3:
+            a, b = opt.calls[1]['x0'], opt.calls[2]['x0']
+            fa, fb = numpy.asarray(a, dtype=object).ravel(), numpy.asarray(b, dtype=object).ravel()
+            eng2.prove(f"{base}/numinv.start_point_independent_of_earlier_evaluations/{which}", len(fa) == len(fb) and sx.And(*[sx.eq(u, v) for u, v in zip(fa, fb)]), extra=x_)
+    obs += collect(eng2, run2, base, 'numinv_history')
+    return obs
+
+
+def _plain_eq(a, b):
+    try:
+        r = a == b
+        return bool(r.all()) if hasattr(r, 'all') else bool(r)
+    except Exception:
+        return False
+
+
+def purity_block(_b):
+    """static frame clause: loading / pressure / spreading_pressure of every model write no attribute of the model object"""
+    import importlib
+    from pgv import framecheck as FC
+    from pgv.util import static_ob
+    an = FC.Analyzer()
+    for name, modname in MC.MODELS.items():
+        an.add_module(importlib.import_module(f"pygaps.modelling.{modname}"))
+    an.add_module(importlib.import_module('pygaps.modelling.base_model'))
+    an.analyze_all()
+    obs = []
+    for qual, sm in sorted(an.summaries.items()):
+        node, mname, cls = an.funcs[qual]
+        fname = qual.split('.')[-1]
+        if cls is None or fname not in ('loading', 'pressure', 'spreading_pressure', 'toth_correction'):
+            continue
+        fields = sorted(sm.self_fields)
+        gw = list(sm.globals_written)
+        obs.append(static_ob(f"{P}/{mname.replace('pygaps.modelling.', '')}.{cls}.{fname}/modifies.nothing/static", not fields and not gw and not sm.writes.get('self'),
+                             f"self fields {fields}; module state {gw}; {sm.writes.get('self')}"))
     return obs
 
 
@@ -364,6 +423,8 @@ def _dispatch(job):
         return ('obs', o, b)
     if kind == 'numinv':
         return ('obs', numinv_block(arg), [])
+    if kind == 'purity':
+        return ('obs', purity_block(arg), [])
     if kind == 'wrap':
         return ('obs', wrappers_block(arg), [])
 
@@ -386,7 +447,7 @@ def run(rep):
                'parameters strictly inside the declared bounds (open intervals); validity ranges as in the property quantifier')
     rep.trust('CPython 3.12', 'z3 5.1.0 (nlsat)', 'sympy 1.14', 'pgv.sx', 'pgv.lift', 'pgv.npproxy')
     jobs = [('z3', n) for n in Z3_MODELS] + [('cas', n) for n in ('Freundlich', 'Toth', 'DR', 'DA', 'JensenSeaton', 'TSLangmuir')] + \
-        [('henry', None)] + [('numinv', n) for n in NUM_INVERSE] + [('wrap', None)]
+        [('henry', None)] + [('numinv', n) for n in NUM_INVERSE] + [('wrap', None), ('purity', None)]
     obs, crashes = par.pmap(_dispatch_flat, jobs)
     for o in obs:
         if '__bounded__' in o:
@@ -396,4 +457,7 @@ def run(rep):
             rep.add(o)
     if crashes:
         rep.crash = crashes[0]
+    from pgv.replayers import c10 as R10
+    for res in R10.order_cases():
+        rep.add_bounded(f"{P}/bounded.{res['name']}", res['ok'], res['detail'], replay={'kind': 'c10.order_case', 'name': res['name']})
     rep.notes.append('closed forms decided for all parameters and pressures; numerical inverses decided at the call-site/contract level')
